@@ -411,7 +411,7 @@ def aln2(rng, reflen=None, qlen=None):
 
 def gen_gfa2(rng, canonical=True, nseg=None, nedges=None, ngaps=None, nfrags=None, nog=None, nug=None,
              ncustom=None, header=True, comments=True, tags=True, names=None, seqs=True,
-             group_nesting=True, gaps_in_sets=False):
+             group_nesting=True, gaps_in_sets=False, gaps_in_paths=False):
     d = Gfa2Doc()
     nseg = nseg if nseg is not None else rng.randint(1, 6)
     pool = list(names or NAME_POOL_2)
@@ -502,6 +502,9 @@ def gen_gfa2(rng, canonical=True, nseg=None, nedges=None, ngaps=None, nfrags=Non
         cand = [(n, "S") for n in names] + [(n, "E") for n in named_edges]
         if group_nesting:
             cand += [(o["oid"], "O") for o in d.ogroups if o["oid"] != "*"]
+        if gaps_in_paths:
+            # gfapy documents gaps as items of ordered groups (the GFA2 text does not list them)
+            cand += [(g["gid"], "G") for g in d.gaps if g["gid"] != "*"] * 2
         k = rng.randint(1, 4)
         items = [(rng.choice(cand)[0], rng.choice("+-")) for _ in range(k)]
         oid = rng.choice(["*", None, None])
